@@ -8,6 +8,7 @@ Line driver for C39.  One line = one scenario on a fresh solo chain:
 `pre` valid one-transaction blocks are added first.  An op is `fork` (AddHeader of an alternative signed header for the next height,
 then the regular block of that height is added) or `<via><mode><ntx>:<mut>,<mut>…`:
 via `o` = block object to AddBlock, `b` = bytes through BlockFromRawBytes then AddBlock, `c` = ExecuteBlock + SubmitBlock;
+an `H` in front of via = the block's own valid signed header is first delivered through AddHeader (header sync);
 mode `r` = field mutations leave the signature alone, `s` = header re-signed by the rightful bookkeeper after the field mutations;
 ntx = number of transactions of the block.  After the ops one more valid block is added (`then:`).
 Output: one verdict per op, `then:<verdict>`, `h=<height gained>`.
@@ -105,7 +106,10 @@ def doOp (s : S) (op : String) : Option (String × S) :=
     some (s!"fork:{outW o1}/{outW o2}", { s with l := l2, fork := some (P.hdrHash alt.hdr.u) })
   else
     match op.splitOn ":" with
-    | [hd, ms] =>
+    | [hd0, ms] =>
+      -- "H" prefix: the block's own valid header goes through AddHeader first
+      let hdrFirst := hd0.startsWith "H"
+      let hd := if hdrFirst then (hd0.drop 1).toString else hd0
       match hd.toList with
       | [via, mode, n] =>
         if !(mode == 'r' || mode == 's') || !n.isDigit then none else
@@ -123,9 +127,13 @@ def doOp (s : S) (op : String) : Option (String × S) :=
           | some b3 =>
             let sr := stateRootOf P s.l b3
             let sr := if srFlip then 7 :: sr else sr
-            match deliver via b3 sr s.l with
+            let (pre, l0) := if hdrFirst then
+                let (o, l') := addHeader P b0.hdr s.l
+                (s!"hdr:{outW o}/", l')
+              else ("", s.l)
+            match deliver via b3 sr l0 with
             | none => none
-            | some (o, l') => some (outW o, { s with l := l' })
+            | some (o, l') => some (pre ++ outW o, { s with l := l' })
       | _ => none
     | _ => none
 
